@@ -603,6 +603,17 @@ def run(repo, run, tier):
             if ("docs['description']" in src or any(w in [x.id for x in ast.walk(a.value) if isinstance(x, ast.Name)] for w in whole)) \
                     and ".split(" not in src:
                 whole.add(a.targets[0].id)
+    # a list display holding the unsplit text (`lines = [desc]`) has the whole text as its element: the loop variable
+    # of an iteration over it is the whole text again (on the path where the text has no trailing newline)
+    holders = set()
+    for a in ast.walk(blk):
+        if isinstance(a, ast.Assign) and isinstance(a.targets[0], ast.Name) and isinstance(a.value, (ast.List, ast.Tuple)) \
+                and any(isinstance(e, ast.Name) and e.id in whole or "docs['description']" == str(um.seg(e)) for e in a.value.elts):
+            holders.add(a.targets[0].id)
+    for l in ast.walk(blk):
+        if isinstance(l, ast.For) and isinstance(l.iter, ast.Name) and l.iter.id in holders and isinstance(l.target, ast.Name):
+            whole.add(l.target.id)
+    whole -= holders
     bad = []
     for c in ast.walk(blk):
         if isinstance(c, ast.Call) and isinstance(c.func, ast.Attribute) and c.func.attr in ("append", "extend") and c.args:
@@ -611,7 +622,6 @@ def run(repo, run, tier):
             in_lines_loop = any(isinstance(p_, ast.For) for p_ in parent_chain(c) if p_ is not blk)
             if ("docs['description']" in um.seg(arg) or names & whole) and not (
                     isinstance(arg, ast.BinOp) and in_lines_loop and not (names & whole)):
-                # exception: `lines = [desc]` when the text has no trailing newline is a one-line description
                 bad.append(um.seg(c))
     run.check(R1, "util.WrapperMixin.write_doxygen:description-lines", not bad,
               "the description (a multi-line block) is emitted as one string (%s): only its first line gets the comment "
